@@ -472,10 +472,19 @@ theorem sinv_launchExtensions {D : List Nat} (s : State) (ph : Phase) (ps : List
           { name := p, ext := true, st := ExtState.launchError, errSet := true, errType := "TooManyExtensions", serial := s.nextSerial } hnot rfl]
         simp only [serl, List.map_append, List.map_cons, List.map_nil]
         exact sinvl_append i
-      · apply ih
-        show SInvL D (serl (s.agents ++ [_])) (s.nextSerial + 1)
-        simp only [serl, List.map_append, List.map_cons, List.map_nil]
-        exact sinvl_append i
+      · split
+        · apply sinv_initFinish
+          show SInvL D (serl (storeFatal _ _).agents) (storeFatal _ _).nextSerial
+          rw [storeFatal_agents, storeFatal_ns]
+          show SInvL D (serl (List.map _ (s.agents ++ [_]))) (s.nextSerial + 1)
+          rw [map_replace_last s.agents { name := p, ext := true, serial := s.nextSerial }
+            { name := p, ext := true, st := ExtState.launchError, errSet := true, errType := "UnknownError", serial := s.nextSerial } hnot rfl]
+          simp only [serl, List.map_append, List.map_cons, List.map_nil]
+          exact sinvl_append i
+        · apply ih
+          show SInvL D (serl (s.agents ++ [_])) (s.nextSerial + 1)
+          simp only [serl, List.map_append, List.map_cons, List.map_nil]
+          exact sinvl_append i
 
 theorem sinv_startInit {D : List Nat} (s : State) (ph : Phase) (i : SInv D s) : SInv D (startInit s ph) := by
   unfold startInit
